@@ -37,6 +37,37 @@ func (n *mixNoReset) HasNext() bool     { return n.it.HasNext() }
 func (n *mixNoReset) Next() (int, bool) { return n.it.Next() }
 func (n *mixNoReset) Close() error      { return n.it.Close() }
 
+// mixFuncSrc / mixFuncSrcNR: sources given as VALUES of a struct of functions (an adapter type with value receivers) -
+// a dynamic type Go cannot compare with ==; the second one has no Reset.  Variant "funcs".
+type mixFuncSrc struct {
+	has   func() bool
+	next  func() (int, bool)
+	cls   func() error
+	reset func() error
+}
+
+func (f mixFuncSrc) HasNext() bool     { return f.has() }
+func (f mixFuncSrc) Next() (int, bool) { return f.next() }
+func (f mixFuncSrc) Close() error      { return f.cls() }
+func (f mixFuncSrc) Reset() error      { return f.reset() }
+
+type mixFuncSrcNR struct {
+	has  func() bool
+	next func() (int, bool)
+	cls  func() error
+}
+
+func (f mixFuncSrcNR) HasNext() bool     { return f.has() }
+func (f mixFuncSrcNR) Next() (int, bool) { return f.next() }
+func (f mixFuncSrcNR) Close() error      { return f.cls() }
+
+func mixFuncsOf(it iterable.Iterator[int]) iterable.Iterator[int] {
+	if r, ok := it.(interface{ Reset() error }); ok {
+		return mixFuncSrc{has: it.HasNext, next: it.Next, cls: it.Close, reset: r.Reset}
+	}
+	return mixFuncSrcNR{has: it.HasNext, next: it.Next, cls: it.Close}
+}
+
 var mixSelectors = map[string]iterable.SelectF[int]{
 	"lt":    func(a, b int) bool { return a < b },
 	"le":    func(a, b int) bool { return a <= b },
@@ -147,6 +178,9 @@ func mixerBuild(s Step, variant string) (*iterable.Mixer[int], error) {
 	}
 	if variant == "tease" {
 		it1, it2 = mixTeaseOf(it1), mixTeaseOf(it2)
+	}
+	if variant == "funcs" {
+		it1, it2 = mixFuncsOf(it1), mixFuncsOf(it2)
 	}
 	if variant == "ptr" {
 		sel := s.Str("sel")
